@@ -1525,6 +1525,242 @@ def run_registry(res, r, n_random, reqs, meta):
                     use_misclosed(res, r, reg, reqs, meta)
 
 
+# --------------------------------------------------------------------------- class D (round 7): compilation histories
+# A template is compiled when it is first used, when it is edited (munge / manage_edit) and on an explicit cook() — in an
+# application server by several threads at once, each for its own template (or two for one shared object).  The program a
+# spelling compiles to must not depend on which other compilations are going on: under every interleaving explored by the
+# deterministic line scheduler (harness/sched.py: one thread at a time, hand-over only at the scripted line events inside
+# the package) every thread's HTML-syntax / SSI / entity / %(…) spelling compiles to the program its abstract template
+# denotes (`expect`), is accepted / rejected like, and renders like, the %(…) print of that abstract template compiled alone
+# before any thread was started.
+
+ACTIONS = ['cook', 'first-call', 'munge', 'edit', 'sub', 'first-call', 'cook']
+ENTITY_JOBS = [('[&dtml-x;]', '[%(x html_quote)s]'), ('&dtml.upper-y;&dtml-x;', '%(y upper)s%(x html_quote)s'),
+               ('<dtml-if flag>&dtml.lower-x;<dtml-else>&dtml-y;</dtml-if>', '%(if flag)[%(x lower)s%(else)[%(y html_quote)s%(if)]'),
+               ('<!--#in items-->&dtml-x;,<!--#/in-->', '%(in items)[%(x html_quote)s,%(in)]')]
+
+
+def _outcome_obj(obj, nsf):
+    import sched
+    log = Log()
+    try:
+        out = {'ok': obj(**nsf(log))}
+    except sched.Deadlock:
+        raise
+    except Exception as e:  # noqa
+        out = {'raise': type(e).__name__, 'msg': str(e)[:300]}
+    out = {k: ADDR.sub('0x', v) if isinstance(v, str) else v for k, v in out.items()}
+    return [out, log.calls]
+
+
+class Job:
+    """one compilation: a spelling of an abstract template, the class compiling it, and how the compilation comes about"""
+
+    def __init__(self, label, kind, src, ref_src, exp_tree, action, ns_index, abstract=None):
+        self.label, self.kind, self.src, self.ref_src, self.exp_tree = label, kind, src, ref_src, exp_tree
+        self.action, self.ns_index, self.abstract = action, ns_index, abstract
+        # the reference: the %(…) print compiled and rendered alone, in this thread, now
+        self.ref = compile_norm('epfs', ref_src)
+        self.ref_out = [list(render('epfs', ref_src, nsf)) for nsf in namespaces()] if self.ref[0] == 'ok' else None
+
+    def describe(self):
+        return {'spelling': self.label, 'class': self.kind, 'source': self.src, 'compiled-by': self.action,
+                'reference-%(...)-print': self.ref_src}
+
+    def fresh(self, shared=None):
+        """(object, thread body); a new object per run (or the shared one)"""
+        import sched
+        from DocumentTemplate.DT_Util import ParseError
+        cls = template_class(self.kind)
+        if shared is not None:
+            obj = shared
+        elif self.action in ('munge', 'edit'):
+            obj = cls('before <dtml-var y> the edit' if self.kind.startswith('html') else 'before %(y)s the edit')
+            obj.cook()
+        else:
+            obj = cls(self.src)
+        act = self.action
+        nsf = namespaces()[self.ns_index]
+        if act == 'sub':
+            outer = template_class('epfs' if self.kind.startswith('html') else 'html')(
+                '%(sub)s' if self.kind.startswith('html') else '<dtml-var sub>')
+            outer.cook()
+
+        def body():
+            try:
+                if act == 'cook':
+                    obj.cook()
+                elif act == 'munge':
+                    obj.munge(self.src)
+                elif act == 'edit':
+                    obj.manage_edit(self.src)
+                elif act == 'first-call':
+                    return ('called', _outcome_obj(obj, nsf))
+                else:
+                    log = Log()
+                    ns = nsf(log)
+                    ns['sub'] = obj
+                    try:
+                        outer(None, ns)
+                    except sched.Deadlock:
+                        raise
+                    except ParseError:
+                        raise
+                    except Exception:  # noqa  (what the rendering raises is compared below, on the compiled object)
+                        pass
+                return ('compiled', None)
+            except ParseError as e:
+                m = parselib.ERR.match(str(e.args[0])) if e.args else None
+                return ('parse-error', (m.group(1) if m else str(e)).strip())
+        return obj, body
+
+    def judge(self, obj, result):
+        """None, or what is wrong with this thread's compilation"""
+        if result[0] != 'ok':
+            return 'the compiling thread ended with %r' % (result,)
+        how, val = result[1]
+        if self.ref[0] != 'ok':
+            if how == 'parse-error':
+                return None if (self.ref[0], self.ref[1]) == (how, val) else \
+                    'rejected with %r, the %%(…) print alone is %s %r' % (val, self.ref[0], self.ref[1])
+            if how == 'called' and 'raise' in val[0] and val[0]['raise'] in ('ParseError', 'SyntaxError'):
+                return None
+            return 'accepted, the %%(…) print alone is rejected (%s %r)' % (self.ref[0], self.ref[1])
+        if how == 'parse-error':
+            return 'rejected with %r, the %%(…) print alone is accepted' % (val,)
+        if how == 'called' and val[0].get('raise') == 'ParseError':
+            return 'rejected with %r, the %%(…) print alone is accepted' % (val[0]['msg'],)
+        blocks = getattr(obj, '_v_blocks', None)
+        if blocks is None:
+            return 'no program after the compilation'
+        tree = parselib.norm(blocks)
+        if self.exp_tree is not None and not same_tree(self.exp_tree, tree):
+            return 'compiled program is not the abstract template: expected %s ; compiled %s' % (
+                json.dumps(self.exp_tree, default=repr)[:300], json.dumps(tree)[:300])
+        if tree != self.ref[1]:
+            return 'compiled program %s is not the program of the %%(…) print compiled alone %s' % (
+                json.dumps(tree)[:300], json.dumps(self.ref[1])[:300])
+        if how == 'called' and val != self.ref_out[self.ns_index]:
+            return 'first call gives %r, the %%(…) print alone %r' % (val, self.ref_out[self.ns_index])
+        for i, nsf in enumerate(namespaces()):
+            got = _outcome_obj(obj, nsf)
+            if got != self.ref_out[i]:
+                return 'namespace %d: renders %r, the %%(…) print compiled alone %r' % (i, got, self.ref_out[i])
+        return None
+
+
+def gen_jobs(r, n):
+    jobs = []
+    tries = 0
+    while len(jobs) < n and tries < 20 * n:
+        tries += 1
+        if r.random() < 0.15:
+            src, ref = r.choice(ENTITY_JOBS)
+            jobs.append(Job('entity', r.choice(['html', 'html-sub']), src, ref, None, r.choice(ACTIONS), r.randrange(3)))
+            continue
+        t = tmplgen.gen_template(r, r.choice([1, 1, 2]), r.choice([2, 3]))
+        if tmplgen.count_tags(t) < 1:
+            continue
+        sp = spellings(t, r)
+        ref_src = [s for s in sp if s[1] == 'epfs'][0][2]
+        lab, kind, src = r.choice([s for s in sp if s[1] != 'epfs'] * 3 + [s for s in sp if s[1] == 'epfs'])
+        if r.random() < 0.25:
+            kind += '-sub'
+        jobs.append(Job(lab, kind, src, ref_src, expect(t), r.choice(ACTIONS), r.randrange(3), abstract=repr(t)))
+    return jobs
+
+
+def _trace_root():
+    """the directory whose source lines are the scheduler's hand-over points: the package (with TreeDisplay, which the package
+    registers as the dtml-tree tag, when the two are the only packages of their directory)"""
+    import os
+    import DocumentTemplate
+    p = os.path.dirname(DocumentTemplate.__file__) + os.sep
+    parent = os.path.dirname(p.rstrip(os.sep))
+    try:
+        names = {n for n in os.listdir(parent) if os.path.isdir(os.path.join(parent, n)) and n[:1] not in '._'
+                 and not n.endswith(('.egg-info', '.dist-info'))}
+    except OSError:
+        names = set()
+    return parent + os.sep if 'TreeDisplay' in names and names <= {'DocumentTemplate', 'TreeDisplay'} else p
+
+
+def run_concurrent(res, r, n_groups, per_group):
+    """n_groups groups of 2..3 compilations; per group ~per_group schedules"""
+    import sched
+    pkg = _trace_root()
+    INF = sched.INF
+    for g in range(n_groups):
+        shape = r.choice(['two', 'two', 'two', 'three', 'shared', 'same-template'])
+        jobs = gen_jobs(r, 3 if shape == 'three' else 2)
+        if shape == 'same-template':
+            # the same abstract template in two spellings, compiled at once
+            a = jobs[0]
+            if a.abstract is not None:
+                jobs[1] = Job('epfs', 'epfs', a.ref_src, a.ref_src, a.exp_tree, r.choice(ACTIONS), r.randrange(3), a.abstract)
+        if shape == 'shared':
+            a = jobs[0]
+            if a.action in ('munge', 'edit', 'sub'):
+                a.action = 'first-call'
+            jobs[1] = Job(a.label, a.kind, a.src, a.ref_src, a.exp_tree, r.choice(['cook', 'first-call']), r.randrange(3), a.abstract)
+        if any(j.ref[0] not in ('ok', 'parse-error') for j in jobs):
+            continue
+        res.nt(('concurrent', shape, tuple(j.src[:40] for j in jobs)))
+
+        def go(script, what):
+            shared = None
+            if shape == 'shared':
+                shared = template_class(jobs[0].kind)(jobs[0].src)
+            # harness/sched.py decides "all unfinished threads are blocked" from its own bookkeeping, which a thread woken by a
+            # lock release updates only when the OS lets it run: a deadlock verdict counts only when it repeats (a deadlock
+            # of the library under a given script is deterministic, the bookkeeping race is not)
+            for attempt in range(4):
+                if attempt and shape == 'shared':
+                    shared = template_class(jobs[0].kind)(jobs[0].src)
+                made = [j.fresh(shared) for j in jobs]
+                results, s = sched.run_threads([m[1] for m in made], script, {}, pkg)
+                if not any(x[0] in ('deadlock', 'hang') for x in results):
+                    break
+                res.count('concurrent_scheduler_retry')
+            res.evaluations += 1
+            res.count('concurrent_compilations=' + what)
+            for j, (obj, _), result in zip(jobs, made, results):
+                bad = j.judge(obj, result)
+                if bad:
+                    res.oracle_fail.append({'case': {'group': 'concurrent-compilation', 'threads': [x.describe() for x in jobs],
+                                                     'same-object': shape == 'shared', 'schedule': what,
+                                                     'script (thread, line events)': [list(map(str, x)) for x in script],
+                                                     'abstract': j.abstract},
+                                            'what': 'thread compiling %r (%s): %s' % (j.src[:200], j.label, bad)})
+                    return None
+            return s.steps
+        # alone, one after the other: also gives the number of line events of each thread
+        steps = go([(i, INF) for i in range(len(jobs))], 'one-after-the-other')
+        if steps is None:
+            return
+        n = [steps.get(i, 0) for i in range(len(jobs))]
+        nt = len(jobs)
+        scripts = []
+        for a in range(nt):
+            b = (a + 1) % nt
+            ks = list(range(1, n[a])) if n[a] <= per_group // 3 else sorted(r.sample(range(1, n[a]), per_group // 3))
+            # compilation is the early part of a first call: half of the points from the first part
+            for k in ks:
+                scripts.append(([(a, k), (b, INF), (a, INF)], '1-preemption'))
+        for _ in range(per_group // 4):
+            a = r.randrange(nt)
+            b = (a + 1) % nt
+            k1, k2 = r.randrange(1, max(2, n[a])), r.randrange(1, max(2, n[b]))
+            if nt == 2:
+                scripts.append(([(a, k1), (b, k2), (a, r.randrange(1, 40)), (b, INF), (a, INF)], '3-preemptions'))
+            else:
+                c = (a + 2) % nt
+                scripts.append(([(a, k1), (b, k2), (c, r.randrange(1, max(2, n[c]))), (a, INF), (b, INF), (c, INF)], '3-threads'))
+        for script, what in scripts:
+            if go(script, what) is None:
+                return
+
+
 def run_wide(res, r, tier_n):
     reqs, meta = [], []
     run_reserved(res, r, tier_n, reqs, meta)
@@ -1549,7 +1785,12 @@ def run(res, tier, have_driver):
                 'File classes), after every step an abstract template over the tags registered then (or an unregistered name / '
                 'a mis-closed block: rejected alike) in 8 spellings (2 per syntax + subclasses of both template classes), '
                 'with templates of both classes as namespace values; expected program and text from the abstract registry '
-                'and the add-on tags\' documented meaning; non-trivial = distinct groups')
+                'and the add-on tags\' documented meaning; compilation histories: 2..3 threads compiling at once (cook, first '
+                'call, munge, manage_edit, first use as a namespace value; own templates of both classes / subclasses, two '
+                'spellings of one template, one shared object; dtml, SSI, entity and %(…) spellings) under the line '
+                'scheduler with 1 preemption at every / sampled line event, 3 preemptions, 3 threads: every thread\'s program '
+                '== the abstract template\'s == the %(…) print compiled alone, same acceptance / message, same rendering on 3 '
+                'namespaces; non-trivial = distinct groups')
     run_all(res, r, 250 if tier == 'quick' else 5000, have_driver, tier != 'quick')
     reqs, meta = run_wide(res, common.rng('C07-wide'), 150 if tier == 'quick' else 3000)
     if have_driver:
@@ -1558,7 +1799,9 @@ def run(res, tier, have_driver):
     run_registry(res, common.rng('C07-registry'), 40 if tier == 'quick' else 1000, reqs, meta)
     if have_driver:
         correspond(res, reqs, meta)
-    res.assumptions += ['hand-compiled scanners validated against CPython re by token/tree correspondence',
+    run_concurrent(res, common.rng('C07-concurrent'), 12 if tier == 'quick' else 300, 72 if tier == 'quick' else 400)
+    res.assumptions += ['concurrent compilations are explored by harness/sched.py (hand-over at line events inside the package, scripted preemptions): sampled interleavings, not all',
+                        'hand-compiled scanners validated against CPython re by token/tree correspondence',
                         'rendering equality is checked on the implementation directly (three namespaces with logged callables, '
                         'undefined names, mappings)',
                         'expected programs / texts come from the abstract template (expect, ref_render in harness/props/c07.py: '
@@ -1579,6 +1822,8 @@ def search_more(res, tier):
         run_wide(res2, common.rng('C07-wide-more'), 1500)
     if not res2.oracle_fail:
         run_registry(res2, common.rng('C07-registry-more'), 400, [], [])
+    if not res2.oracle_fail:
+        run_concurrent(res2, common.rng('C07-concurrent-more'), 60, 200)
     return res2.oracle_fail
 
 
